@@ -198,16 +198,16 @@ def correspondence(ctx):
     rng = ctx.rng
     widen = 3 if ctx.widen else 1
     # ------------------------------------------------ build all cases first, then one driver call
-    ifaces = [_gen_interface(rng) for _ in range(ctx.scale(400, 8000) * widen)]
+    ifaces = [_gen_interface(rng) for _ in range(ctx.scale(400, 20000) * widen)]
     ifaces += [(1.0, 1.5, 40.0), (1.5, 1.0, 30.0), (1.0, 1.0, 20.0), (2.0, 2.0, 0.0), (1.33, 2.4, 89.0)]
     stacks = []
-    for i in range(ctx.scale(800, 24000) * widen):
+    for i in range(ctx.scale(800, 60000) * widen):
         k = 1 + i % 8
         c = _gen_stack(rng, k)
         c['pol'] = 'sp'[(i // 8) % 2]
         stacks.append(c)
     absorb = []
-    for i in range(ctx.scale(200, 5000) * widen):
+    for i in range(ctx.scale(200, 15000) * widen):
         k = 2 + i % 6
         c = _gen_stack(rng, k, absorbing=True)
         c['pol'] = 'sp'[i % 2]
@@ -282,7 +282,7 @@ def correspondence(ctx):
 
     # ------------------------------------------------ batched index / thickness arrays vs the per-element loop
     shapes = [(5,), (3, 4), (1,), (2, 1), (2, 3, 2)]
-    for i in range(ctx.scale(80, 1500) * widen):
+    for i in range(ctx.scale(80, 3000) * widen):
         bs = shapes[i % len(shapes)]
         k = 1 + (i // len(shapes)) % 8
         amb = float(rng.choice([1.0, round(rng.uniform(1, 2), 3)]))
